@@ -688,7 +688,7 @@ func propC20(c *Check) {
 			}
 			n++
 			v := p.R(fs.Fn).E(fs.Store.Val)
-			c.RequireFact(fs.Fn, "R1", field+"-guard", mk(regexp.QuoteMeta(v)), instrSet([]ssa.Instruction{fs.Store}), "store to Params."+field)
+			c.requireFactForCommitted(fs.Fn, "R1", field+"-guard", mk(regexp.QuoteMeta(v)), fs.Store, "store to Params."+field)
 		}
 		c.Floor("R1", field+" runtime stores", n, 1)
 	}
@@ -724,7 +724,14 @@ func propC20(c *Check) {
 	pbr := p.MustFn("x/bitcoin/keeper.Keeper.ProcessBridgeRequest")
 	for _, s := range p.StoreSites(pbr) {
 		if s.Field.Name() == "Params" && s.Method == "Set" {
-			if v := p.R(pbr).E(s.Args[0]); v == "Params.Get()#0" {
+			v := p.R(pbr).E(s.Args[0])
+			// the stored record is the loaded one, possibly via whole copies through other locals (copy, modify, commit)
+			if u, ok := s.Args[0].(*ssa.UnOp); ok {
+				if al, ok := u.X.(*ssa.Alloc); ok {
+					v = strings.Join(p.recordOrigins(pbr, al), " | ")
+				}
+			}
+			if v == "Params.Get()#0" {
 				c.Held("R3", "Params.Set-value @ "+FuncKey(pbr), p.InstrPos(s.Call), "stores the loaded-and-guarded params")
 			} else {
 				c.Violated("R3", "Params.Set-value @ "+FuncKey(pbr), p.InstrPos(s.Call), "stores "+v)
